@@ -17,6 +17,8 @@ def main():
         mp = os.path.join(VERIF, "seeded", d, "meta.json")
         if os.path.exists(rp) and os.path.exists(mp):
             m = json.load(open(mp))
+            if m.get("not_counted"):        # neutralised by a later genuine repair / at the edge of the documented contract (see its meta.json)
+                continue
             breaks = m.get("properties", [m.get("property")])
             for p, r in json.load(open(rp)).items():
                 if p in breaks:          # runs against other properties are informational only
